@@ -287,6 +287,11 @@ func (c *Ctx) typeCheckWorld(u *Unit, fieldHoles map[string]bool, s Shape, withR
 			}
 		}}
 		info := &types.Info{}
+		if c.worldInspect != nil {
+			info.Types = map[ast.Expr]types.TypeAndValue{}
+			info.Uses = map[*ast.Ident]types.Object{}
+			info.Defs = map[*ast.Ident]types.Object{}
+		}
 		conf.Check("world/"+pkgName, fset, append(append([]*ast.File{}, files...), stub), info)
 		changed := false
 		var findings []typeFinding
@@ -340,6 +345,16 @@ func (c *Ctx) typeCheckWorld(u *Unit, fieldHoles map[string]bool, s Shape, withR
 			findings = append(findings, typeFinding{Msg: te.Msg, Line: ln, Text: text, File: pos.Filename})
 		}
 		if !changed {
+			if c.worldInspect != nil {
+				for _, fd := range c.worldInspect(fset, f, info) {
+					lines := strings.Split(src, "\n")
+					if fd.Line >= 1 && fd.Line <= len(lines) {
+						fd.Text = strings.TrimSpace(lines[fd.Line-1])
+					}
+					fd.File = "world" + u.Suffix()
+					findings = append(findings, fd)
+				}
+			}
 			return findings, nil
 		}
 	}
@@ -386,6 +401,8 @@ var notFieldGoName = regexp.MustCompile(`(Methods@\d+|Services@\d+|\.Oneof|\.Enu
 func classifyTypeError(msg string) string {
 	msg = holeFree(msg)
 	switch {
+	case strings.HasPrefix(msg, "lossy conversion"):
+		return msg
 	case strings.Contains(msg, "mismatched types"):
 		return "mismatched types in comparison"
 	case strings.Contains(msg, "invalid argument") && strings.Contains(msg, "for built-in len"):
@@ -409,10 +426,22 @@ func classifyTypeError(msg string) string {
 
 // checkShapeWorlds runs every codec world for both Go plugins.
 func checkShapeWorlds(c *Ctx, rule string) {
+	checkShapeWorldsSel(c, rule, nil, func(fd typeFinding) bool { return !strings.HasPrefix(fd.Msg, "lossy conversion") })
+}
+
+// checkShapeWorldsSel: the worlds selected by only (nil = all); of the findings those that keep admits are reported.
+func checkShapeWorldsSel(c *Ctx, rule string, only func(worldSpec) bool, keep func(typeFinding) bool, okLabel ...string) {
+	label := "type-checks"
+	if len(okLabel) > 0 {
+		label = okLabel[0]
+	}
 	r := c.R
 	nWorlds, nChecked := 0, 0
 	for _, pkg := range []string{pkgHTTP, pkgClient} {
 		for _, ws := range codecWorlds {
+			if only != nil && !only(ws) {
+				continue
+			}
 			ri := c.Root(pkg, ws.Suffix)
 			if ri == nil {
 				r.Unres(rule, pkgShort(pkg)+" "+ws.Name, "", "unit *"+ws.Suffix+" not found")
@@ -471,6 +500,13 @@ func checkShapeWorlds(c *Ctx, rule string) {
 						r.Undec(rule, fmt.Sprintf("%s %s on %s", pkgShort(pkg), ws.Name, s), "", err.Error())
 						continue
 					}
+					kept := finds[:0:0]
+					for _, fd := range finds {
+						if keep == nil || keep(fd) {
+							kept = append(kept, fd)
+						}
+					}
+					finds = kept
 					for _, fd := range finds {
 						em, pos := "?", ""
 						if fd.Line >= 1 && fd.Line <= len(u.Lines) {
@@ -496,12 +532,12 @@ func checkShapeWorlds(c *Ctx, rule string) {
 			}
 			for _, class := range sortedKeys(okShapes) {
 				ks := dedupeSorted(okShapes[class])
-				r.OKd(rule, fmt.Sprintf("%s %s on %s {%s} type-checks", pkgShort(pkg), ws.Name, class, strings.Join(ks, ",")), "", nil)
+				r.OKd(rule, fmt.Sprintf("%s %s on %s {%s} %s", pkgShort(pkg), ws.Name, class, strings.Join(ks, ","), label), "", nil)
 			}
 			for _, k := range sortedKeys(bad) {
 				a := bad[k]
 				r.Bad(rule, k+" {"+strings.Join(sortedKeys(a.kinds), ",")+"}", a.pos,
-					fmt.Sprintf("for a field of this shape the generators accept the annotation, but the emitted Go does not compile: %s  (emitted line: %s)", a.msg, a.text), nil)
+					fmt.Sprintf(worldMsg(a.msg), a.msg, a.text), nil)
 			}
 		}
 	}
@@ -518,4 +554,97 @@ func dedupeSorted(xs []string) []string {
 		}
 	}
 	return out
+}
+
+func worldMsg(msg string) string {
+	if strings.HasPrefix(msg, "lossy conversion") {
+		return "for a field of this shape the generators accept the annotation, and the emitted codec converts the field's value to a type that cannot hold all of its values: %s  (emitted line: %s)"
+	}
+	return "for a field of this shape the generators accept the annotation, but the emitted Go does not compile: %s  (emitted line: %s)"
+}
+
+// lossyConversions is a worldInspect pass: a conversion T(e) between basic numeric types where e is not a constant and some
+// value of e's type is not representable in T (other sign, smaller width, 64-bit integer to a float, float to an integer).
+func lossyConversions(fset *token.FileSet, f *ast.File, info *types.Info) []typeFinding {
+	var out []typeFinding
+	width := func(b *types.Basic) (bits int, signed, isFloat bool) {
+		switch b.Kind() {
+		case types.Int8:
+			return 8, true, false
+		case types.Int16:
+			return 16, true, false
+		case types.Int32:
+			return 32, true, false
+		case types.Int64, types.Int:
+			return 64, true, false
+		case types.Uint8:
+			return 8, false, false
+		case types.Uint16:
+			return 16, false, false
+		case types.Uint32:
+			return 32, false, false
+		case types.Uint64, types.Uint, types.Uintptr:
+			return 64, false, false
+		case types.Float32:
+			return 24, true, true
+		case types.Float64:
+			return 53, true, true
+		}
+		return 0, false, false
+	}
+	ast.Inspect(f, func(n ast.Node) bool {
+		call, ok := n.(*ast.CallExpr)
+		if !ok || len(call.Args) != 1 {
+			return true
+		}
+		tv, ok := info.Types[call.Fun]
+		if !ok || !tv.IsType() {
+			return true
+		}
+		av, ok := info.Types[call.Args[0]]
+		if !ok || av.Value != nil || av.Type == nil {
+			return true
+		}
+		tb, ok1 := tv.Type.Underlying().(*types.Basic)
+		sb, ok2 := av.Type.Underlying().(*types.Basic)
+		if !ok1 || !ok2 || tb.Info()&types.IsNumeric == 0 || sb.Info()&types.IsNumeric == 0 {
+			return true
+		}
+		tw, ts, tf := width(tb)
+		sw, ss, sf := width(sb)
+		if tw == 0 || sw == 0 {
+			return true
+		}
+		lossy := false
+		switch {
+		case sf && !tf:
+			lossy = true // float -> integer truncates
+		case !sf && tf:
+			lossy = sw > tw // integer wider than the mantissa
+		case sf && tf:
+			lossy = sw > tw
+		default:
+			switch {
+			case ss == ts:
+				lossy = sw > tw
+			case ss && !ts:
+				lossy = true // negative values
+			case !ss && ts:
+				lossy = sw >= tw
+			}
+		}
+		if lossy {
+			out = append(out, typeFinding{Msg: fmt.Sprintf("lossy conversion %s(%s)", tb.Name(), sb.Name()), Line: fset.Position(call.Pos()).Line})
+		}
+		return true
+	})
+	return out
+}
+
+// checkWorldConversions — R04p: in the shape worlds of the integer codecs no emitted conversion loses values of the field.
+func checkWorldConversions(c *Ctx, rule string) {
+	c.worldInspect = lossyConversions
+	defer func() { c.worldInspect = nil }()
+	checkShapeWorldsSel(c, rule, func(ws worldSpec) bool { return ws.Name == "int64_encoding=NUMBER" },
+		func(fd typeFinding) bool { return strings.HasPrefix(fd.Msg, "lossy conversion") }, "converts the field's value without loss")
 }
